@@ -8,6 +8,7 @@
 -/
 import MoreExec.Model.WakeProto
 import MoreExec.Proofs.Retry.Timing
+import MoreExec.Proofs.Retry.Lost
 import MoreExec.Props.C07
 import MoreExec.Props.C08
 import MoreExec.Props.C09
@@ -335,6 +336,46 @@ cancel and its delegate; see DESIGN.md). -/
 theorem C03_retry_no_lost_future_partial (as : List Act) (hg : ∀ a ∈ as, NoClientCancel a) (s : St) (hrun : run init as = some s) :
     ∀ f ∈ s.submitted, f ∈ s.done ∨ (∃ j ∈ s.jobs, j.fut = f) ∨ (∃ nj, s.submitting = some nj ∧ nj.fut = f) :=
   (invariant_run_guarded step NoClientCancel Held (fun m a m' hga hi hst => held_step m a m' hga hi hst) init held_init as hg s hrun).2
+
+/-- (retry: no future is lost — with client cancels) For EVERY run of the Retry model — any number of submissions, attempts,
+policy answers, back-offs, `cancel()` calls from any number of threads landing at any point (queued, between retries, inside the
+hand-over window, attempt running, being resolved), delegates cancelled by someone else — every future handed out by `submit()` is,
+in the final state, terminal, or has its job in the job list, or is the future the submit thread is handing over right now, or
+is the subject of a `cancel()` call in progress that will end by making it terminal (it popped the queued job, or its
+`delegate.cancel()` returned True, or the delegate has been cancelled meanwhile) — provided the delegate contract DC3 held on that
+run: no delegate future whose `cancel()` returned False to the library was cancelled afterwards (`Disj`: decidable on the run,
+true of every stdlib / SimPool future, whose cancel() returns False only once running or finished). -/
+theorem C03_retry_no_lost_future (as : List Act) (s : St) (hrun : run init as = some s) (hdc : Disj s) :
+    ∀ f ∈ s.submitted, Kept s f :=
+  (invariant_run step LInv linv_step init linv_init as s hrun).kept hdc
+
+/-- at quiescence of the cancels and of the hand-over (no `cancel()` in progress, submit thread outside `_submit_now`) every
+handed-out future is terminal or still has its job: nothing has been dropped -/
+theorem C03_retry_no_lost_future_quiescent (as : List Act) (s : St) (hrun : run init as = some s) (hdc : Disj s)
+    (hc : s.cancelling = []) (hw : s.submitting = none) : ∀ f ∈ s.submitted, f ∈ s.done ∨ ∃ j ∈ s.jobs, j.fut = f := by
+  intro f hf
+  rcases C03_retry_no_lost_future as s hrun hdc f hf with h | h | ⟨nj, hnj, _⟩ | ⟨b, hb⟩ | h | ⟨d, b, hb, _⟩
+  · exact Or.inl h
+  · exact Or.inr h
+  · rw [hw] at hnj; cases hnj
+  · rw [hc] at hb; cases hb
+  · rw [hc] at h; cases h
+  · rw [hc] at hb; cases hb
+
+/-- without the contract the statement is FALSE of the model (and of the code): a delegate whose cancel() first fails and which is
+then cancelled by someone else while the client's `cancel()` is still inside `_cancel` leaves the future pending with no job
+(`_me_delegate_cancelled` defers to the cancel in progress, which then reports False).  Witness run: -/
+def lostRun : List Act :=
+  [.submit 0, .submitNow ⟨0, 0, 0, none, false, none⟩, .submitApp, .cancelScan 0, .cancelDel 0 false, .ddone 0 true, .cbCancelled 0, .cancelEnd 0]
+theorem C03_retry_lost_without_contract :
+    ((run init lostRun).map (fun s => (s.done, s.jobs.length, s.cancelling.length, s.submitting.isSome, decide (0 ∈ s.submitted))))
+      = some ([], 0, 0, false, true) := by decide
+
+/-! Non-vacuity of the contract hypothesis: a run with a refused cancel (attempt running) that is later finalised normally -/
+def refusedRun : List Act :=
+  [.submit 0, .submitNow ⟨0, 0, 0, none, false, none⟩, .submitApp, .cancelScan 0, .cancelDel 0 false, .cancelEnd 0,
+   .ddone 0 false, .cbPolicy 0 none, .cbFinal 0]
+example : ((run init refusedRun).map (fun s => (s.refused, s.delCancelled, s.done))) = some ([0], [], [0]) := by decide
 
 end MoreExec.Retry
 
